@@ -439,6 +439,104 @@ def unroll_literal_loops(fn_node: ast.AST) -> ast.AST:
     return f
 
 
+def inline_local_functions(fn_node: ast.AST) -> ast.AST:
+    """A parent-linked clone in which the function's own nested helper functions (closures: plain `def`s in its body that are only ever
+    called by name inside it) are written out at their call sites, and `buf = <fresh array>; ...; <attr> = buf` (a local array that is filled
+    and then published once, never used afterwards) is filled in place under the published name.  Uses the exact inlining machinery of
+    gxstat.absorb (simple arguments, returns eliminated, clashing locals renamed); a helper with a call site that cannot be inlined exactly
+    is left alone."""
+    from . import absorb as ab
+    from .srcmodel import set_parents
+    f = clone(fn_node)
+    set_parents(f)
+    changed = False
+    for _ in range(3):
+        nested = [n for n in f.body if isinstance(n, ast.FunctionDef)]
+        progress = False
+        for h in nested:
+            if h not in f.body or ab._eligible(h, False) is not None:
+                continue
+            refs = [n for n in ast.walk(f) if isinstance(n, ast.Name) and n.id == h.name and not any(n is x for x in ast.walk(h))]
+            if not refs or any(not (isinstance(parent(r), ast.Call) and parent(r).func is r) for r in refs):
+                continue
+            backup = clone(f)
+            pos = f.body.index(h)
+            f.body.remove(h)                      # its own body is not a call site
+            ok = True
+            for _guard in range(40):
+                set_parents(f)
+                site = ab._call_site(f, h.name, False)
+                if site is None:
+                    break
+                st, call, _r = site
+                new = ab._inline_at(f, st, call, h, False, '')
+                if new is None or not ab._replace_stmt(f, st, new):
+                    ok = False
+                    break
+            left = [n for n in ast.walk(f) if isinstance(n, ast.Name) and n.id == h.name]
+            if ok and not left:
+                progress = changed = True
+            else:
+                f = backup                         # exactness over coverage: all call sites or none
+                set_parents(f)
+                break
+        if not progress:
+            break
+    # build-then-publish
+    set_parents(f)
+
+    def is_alloc(s2, buf=None) -> bool:
+        return isinstance(s2, ast.Assign) and len(s2.targets) == 1 and isinstance(s2.targets[0], ast.Name) and isinstance(s2.value, ast.Call) \
+            and (dotted_name(s2.value.func) or '').split('.')[-1] in ('zeros', 'ones', 'empty', 'full') and (buf is None or s2.targets[0].id == buf)
+    for blk_owner in list(ast.walk(f)):
+        blk = getattr(blk_owner, 'body', None)
+        if not isinstance(blk, list):
+            continue
+        i = 0
+        while i < len(blk):
+            st = blk[i]
+            i += 1
+            if not is_alloc(st):
+                continue
+            buf = st.targets[0].id
+            i0 = i - 1
+            nxt = next((k for k in range(i0 + 1, len(blk)) if is_alloc(blk[k], buf)), len(blk))
+            in_block = sum(1 for s2 in blk for n in ast.walk(s2) if isinstance(n, ast.Name) and n.id == buf)
+            if in_block != sum(1 for n in ast.walk(f) if isinstance(n, ast.Name) and n.id == buf):
+                continue            # the buffer is visible outside this block
+            pubs = [k for k in range(i0 + 1, nxt) if isinstance(blk[k], ast.Assign) and len(blk[k].targets) == 1 and isinstance(blk[k].targets[0], ast.Attribute)
+                    and isinstance(blk[k].value, ast.Name) and blk[k].value.id == buf]
+            if len(pubs) != 1:
+                continue
+            j = pubs[0]
+            pub = blk[j]
+            attr_txt = norm(pub.targets[0])
+            if any(isinstance(n, ast.Name) and n.id == buf for s2 in blk[j + 1:nxt] for n in ast.walk(s2)):
+                continue            # still used after it was published
+            if any(isinstance(n, ast.Attribute) and norm(n) == attr_txt for s2 in blk[i0 + 1:j] for n in ast.walk(s2)):
+                continue            # the published attribute is touched while the buffer is being filled
+            if any(isinstance(n, ast.Name) and n.id == buf and isinstance(n.ctx, ast.Store) for s2 in blk[i0 + 1:j] for n in ast.walk(s2)):
+                continue
+            st.targets[0] = clone(pub.targets[0])
+
+            class R(ast.NodeTransformer):
+                def visit_Name(self, n):
+                    if n.id == buf and isinstance(n.ctx, ast.Load):
+                        a_ = clone(pub.targets[0])
+                        a_.ctx = ast.Load()
+                        return ast.copy_location(a_, n)
+                    return n
+            for k in range(i0 + 1, j):
+                blk[k] = R().visit(blk[k])
+            del blk[j]
+            changed = True
+    if not changed:
+        return fn_node
+    ast.fix_missing_locations(f)
+    set_parents(f)
+    return f
+
+
 def canonicalise_module(tree: ast.Module) -> None:
     """In place: every function of the module gets its attribute aliases inlined (the continue-guard un-nesting of canonical_function
     is left to the rules that ask for it: several rules are written against the guard-clause form)."""
